@@ -489,6 +489,8 @@ pub fn run(ctx: &Ctx) -> i32 {
     ];
     if ctx.quick() {
         blocks.push((10, vec![10, 11, far], 250, false));
+        blocks.push((4, vec![4, 5, 6, far], 0, true));
+        blocks.push((5, vec![5, 6, 7, far], 250, false));
     } else {
         blocks.push((4, vec![4, 5, 6, far], 0, true));
         blocks.push((10, vec![10, 11, 12, far], 250, true));
@@ -497,7 +499,7 @@ pub fn run(ctx: &Ctx) -> i32 {
         blocks.push((5, vec![5, 6, 7, 8, far], 250, false));
     }
     let objs: Vec<((u64, u16, u8, u16, u8), u32)> = if ctx.quick() {
-        vec![((9, 2, 2, 2, 1), 1), ((11, 2, 3, 1, 1), 1), ((5, 1, 2, 1, 1), 2)]
+        vec![((9, 2, 2, 2, 1), 1), ((11, 2, 3, 1, 1), 1), ((5, 1, 2, 1, 1), 2), ((7, 1, 3, 1, 1), 1), ((23, 4, 3, 2, 2), 1)]
     } else {
         vec![((9, 2, 2, 2, 1), 2), ((11, 2, 3, 1, 1), 2), ((5, 1, 2, 1, 1), 3), ((23, 4, 3, 2, 2), 1), ((7, 1, 3, 1, 1), 2)]
     };
@@ -523,10 +525,10 @@ pub fn run(ctx: &Ctx) -> i32 {
         (3, (5, 3, 1), vec![3, 4, far], 250, true),
         (4, (6, 2, 2), vec![4, 5, far], 0, false),
     ];
+    shaped.push((4, (7, 3, 1), vec![4, 5, 6, far], 250, true));
+    shaped.push((5, (8, 2, 4), vec![5, 6, far], 0, true));
     if ctx.thorough() {
-        shaped.push((4, (7, 3, 1), vec![4, 5, 6, far], 250, true));
         shaped.push((10, (12, 5, 1), vec![10, 11, far], 250, false));
-        shaped.push((5, (8, 2, 4), vec![5, 6, far], 0, true));
     }
     for (k, sh, rep, th, bat) in shaped {
         blocks.push((k, rep, th, bat));
